@@ -101,7 +101,7 @@ theorem hdrOf_getD (m : UMesh) (k : Kind) : (hdrOf m).getD k.hdrIndex 0 = ((m.ge
 theorem hdrOf_getD0 (m : UMesh) : (hdrOf m).getD 0 0 = (m.nodes.length : Int) := by simp [hdrOf]
 
 /-- every section of ref_part_bin_ugrid on the laid-out file returns the cells of that kind (deduplicated by node set),
-    for every rank count ≥ 1 and every chunk size from 1 up to what the allocator cap admits -/
+    for every rank count ≥ 1 and every chunk size from 1 up to what the allocator cap allows -/
 theorem partSection_raw (fl : Flavor) (m : UMesh) (hw : WellFormed m = true) (np : Nat) (hnp : 1 ≤ np) (chunk : Nat)
     (hc1 : 1 ≤ chunk) (hc2 : 72 * chunk ≤ 2 ^ 30) (k : Kind) :
     partSection fl (encodeRaw fl m) np (some chunk) (hdrOf m) k = .ok (dedupCells k (m.get k) []) := by
